@@ -39,3 +39,5 @@
 (declare-fun lscanlen (Any Str) Int)
 (declare-fun lscanid (Any Str Int) Str)
 (declare-fun lsum (Int) Int)
+; rkindOf(t): the reflect.Kind of a reflect.Type value (named; see externs.gvc)
+(declare-fun rkindOf (Any) Int)
